@@ -457,6 +457,12 @@ func (m *Muxer) receiver() {
 	for m.state.Load() != muxerStopped {
 		var frame *frame
 		frame, err = m.readMsg()
+		if errors.Is(err, errMalformedFrame) {
+			// A frame the peer got wrong must not take the other tubes down.
+			m.log.Info("dropping malformed frame")
+			err = nil
+			continue
+		}
 		if err != nil {
 			return
 		}
